@@ -230,9 +230,10 @@ func seedSession(e *senv, tr *tracer, sub string, tor *vh.Torrent, mod func(*tor
 		fmt.Fprintln(os.Stderr, "AddTorrent:", err)
 		os.Exit(2)
 	}
-	if !e.hub.Wait("t1", 10*time.Second, func(v *torrent.VerifSnap) bool { return v.Status == "Seeding" && v.Acceptor && v.Port != 0 }) {
-		tr.emit(ev{"op": "Hang", "sub": sub, "what": "torrent does not reach Seeding", "where": stuckWhere()})
-		os.Exit(3)
+	if !e.hub.Wait("t1", 25*time.Second, func(v *torrent.VerifSnap) bool { return v.Status == "Seeding" && v.Acceptor && v.Port != 0 }) {
+		skip(e, tr, sub, "torrent does not reach Seeding")
+		go s.Close()
+		return nil, nil
 	}
 	return s, t
 }
@@ -262,6 +263,9 @@ func uploadqRun(tr *tracer, idx int, seed int64) {
 			}
 			c.MaxPeerAccept = 10
 		})
+		if s == nil {
+			return
+		}
 		torrent.VerifSetUnchokePeriod(t, 30*time.Millisecond)
 		p, err := dialPeer(e, "leech", "127.0.0.2", fmt.Sprintf("127.0.0.1:%d", t.Port()), tor, fast, false)
 		if err != nil {
@@ -377,8 +381,9 @@ func pipelineRun(tr *tracer, idx int, seed int64) {
 			fmt.Fprintln(os.Stderr, "AddTorrent:", err)
 			os.Exit(2)
 		}
-		if !e.hub.Wait("t1", 10*time.Second, func(v *torrent.VerifSnap) bool { return v.Status == "Downloading" && v.Acceptor && v.Port != 0 }) {
+		if !e.hub.Wait("t1", 25*time.Second, func(v *torrent.VerifSnap) bool { return v.Status == "Downloading" && v.Acceptor && v.Port != 0 }) {
 			skip(e, tr, "pipeline", "torrent does not reach Downloading")
+			go s.Close()
 			return
 		}
 		p, err := dialPeer(e, "seed", "127.0.0.2", fmt.Sprintf("127.0.0.1:%d", t.Port()), tor, fast, true)
@@ -559,8 +564,11 @@ func ramRun(tr *tracer, idx int, seed int64) {
 		}()
 		for i, t := range ts {
 			id := fmt.Sprint("t", i+1)
-			if !e.hub.Wait(id, 10*time.Second, func(v *torrent.VerifSnap) bool { return v.Status == "Downloading" && v.Acceptor && v.Port != 0 }) {
+			if !e.hub.Wait(id, 25*time.Second, func(v *torrent.VerifSnap) bool { return v.Status == "Downloading" && v.Acceptor && v.Port != 0 }) {
 				skip(e, tr, "ram", "torrent does not reach Downloading")
+				close(stopPoll)
+				pwg.Wait()
+				go s.Close()
 				return
 			}
 			for k := 0; k < 3; k++ {
@@ -817,8 +825,9 @@ func webseedRun(tr *tracer, idx int, seed int64) {
 			fmt.Fprintln(os.Stderr, "AddTorrent:", err)
 			os.Exit(2)
 		}
-		if !e.hub.Wait("t1", 10*time.Second, func(v *torrent.VerifSnap) bool { return v.Status == "Downloading" && v.Acceptor && v.Port != 0 }) {
+		if !e.hub.Wait("t1", 25*time.Second, func(v *torrent.VerifSnap) bool { return v.Status == "Downloading" && v.Acceptor && v.Port != 0 }) {
 			skip(e, tr, "webseed", "torrent does not reach Downloading")
+			go s.Close()
 			return
 		}
 		// a slow honest peer as well: web-seed ranges get stolen / truncated by peer downloads
@@ -906,7 +915,7 @@ func rateRun(tr *tracer, idx int, seed int64) {
 			s, prov := e.session(func(c *torrent.Config) { c.SpeedLimitDownload = rateKB; c.MaxRequestsOut = 2 })
 			prov.Truth[""] = tor
 			t, _ := s.AddTorrent(bytes.NewReader(tor.Bytes), &torrent.AddTorrentOptions{ID: "t1"})
-			e.hub.Wait("t1", 10*time.Second, func(v *torrent.VerifSnap) bool { return v.Status == "Downloading" && v.Acceptor && v.Port != 0 })
+			e.hub.Wait("t1", 25*time.Second, func(v *torrent.VerifSnap) bool { return v.Status == "Downloading" && v.Acceptor && v.Port != 0 })
 			for k := 0; k < 2; k++ {
 				pol := &vh.SeederPolicy{Reply: func(s *vh.Seeder, req vh.Msg) ([]vh.Msg, bool) { m.add(int(req.Length)); return nil, false }}
 				vh.ConnectSeeder(e.T, fmt.Sprint("s", k), fmt.Sprintf("127.0.0.%d", k+2), fmt.Sprintf("127.0.0.1:%d", t.Port()), tor, pol)
@@ -922,6 +931,9 @@ func rateRun(tr *tracer, idx int, seed int64) {
 		case "up":
 			tor := vh.Build(lay, seed, nil, nil)
 			s, t := seedSession(e, tr, "rate", tor, func(c *torrent.Config) { c.SpeedLimitUpload = rateKB })
+			if s == nil {
+				return
+			}
 			torrent.VerifSetUnchokePeriod(t, 30*time.Millisecond)
 			p, err := dialPeer(e, "leech", "127.0.0.2", fmt.Sprintf("127.0.0.1:%d", t.Port()), tor, true, false)
 			if err != nil {
